@@ -99,7 +99,11 @@ func drive(args []string) error {
 func variantOf(name string) int {
 	h := fnv.New32a()
 	h.Write([]byte(name))
-	return int(h.Sum32() % 1024)
+	v := int(h.Sum32() % 1024)
+	if strings.HasPrefix(name, "big-") && v%5 == 4 {
+		v++ // the large populations exist for the limit caps: never under a configuration whose actor policy refuses the scoped calls
+	}
+	return v
 }
 
 type job struct {
@@ -142,6 +146,17 @@ func run(args []string) error {
 			return fmt.Errorf("unknown surface %q", s)
 		}
 	}
+	var pairs [][2]string // the (surface, backend) pairs that exist
+	for _, be := range bes {
+		for _, sf := range sfs {
+			if operapi.BackendOK(sf, be) {
+				pairs = append(pairs, [2]string{sf, be})
+			}
+		}
+	}
+	if len(pairs) == 0 {
+		return fmt.Errorf("no surface can run on the given backends")
+	}
 	sc := bufio.NewScanner(inf)
 	sc.Buffer(make([]byte, 1<<20), 1<<28)
 	var jobs []job
@@ -159,11 +174,15 @@ func run(args []string) error {
 			continue
 		}
 		if *spread {
-			jobs = append(jobs, job{s, sfs[k%len(sfs)], bes[(k/len(sfs))%len(bes)]})
+			p := pairs[k%len(pairs)]
+			jobs = append(jobs, job{s, p[0], p[1]})
 		} else {
 			for si, sf := range sfs {
 				for bi, be := range bes {
-					if *bigOne && strings.HasPrefix(s.Name, "big-") && (k+si)%len(bes) != bi {
+					if !operapi.BackendOK(sf, be) {
+						continue
+					}
+					if *bigOne && strings.HasPrefix(s.Name, "big-") && operapi.BackendOK(sf, bes[(k+si)%len(bes)]) && (k+si)%len(bes) != bi {
 						continue // large populations: one backend per surface, in rotation
 					}
 					jobs = append(jobs, job{s, sf, be})
@@ -199,7 +218,7 @@ func run(args []string) error {
 			defer wg.Done()
 			for j := i; j < len(jobs); j += *shards {
 				jb := jobs[j]
-				cfg := l0.BackendCfg(jb.s.Cfg, jb.backend, false)
+				cfg := operapi.SurfaceCfg(jb.surface, l0.BackendCfg(jb.s.Cfg, jb.backend, false))
 				name := jb.s.Name + "/" + jb.surface + "/" + jb.backend
 				n, err := operapi.Run(files[i], sd, name, jb.surface, variantOf(jb.s.Name), cfg, operapi.Adapt(jb.s.Ops), operapi.Opts{SelfTest: *selftest}, cnts[i])
 				if err != nil {
